@@ -318,13 +318,28 @@ def run(ck):
         if not t_ or len(b.succs) != 2:
             continue
         for k_ in (0, 1):
-            r_ = lib.rel_on_edge(t_, k_)
-            if r_ is None or b.succs[k_] is None or r_[1] != "!=" or not cfg.edge_dominates(bf, b.id, k_, e):
+            if b.succs[k_] is None or not cfg.edge_dominates(bf, b.id, k_, e):
                 continue
-            if "c:" + "Pistache::Http::Request::method" in (t_.get("leafrefs") or t_.get("refs") or []):
-                ok_skip = True
-            if t_.get("rconst") == "nullptr" or "nullptr" in ((r_[2].get("t") or "") + (r_[0].get("t") or "")):
-                ok_match = True
+            for r_ in lib.edge_relations(bf, b.id, k_):
+                tt_ = r_[3]
+                if r_[1] != "!=":
+                    continue
+                if "c:" + "Pistache::Http::Request::method" in (tt_.get("leafrefs") or tt_.get("refs") or []):
+                    ok_skip = True
+                if tt_.get("rconst") == "nullptr" or "nullptr" in ((r_[2].get("t") or "") + (r_[0].get("t") or "")):
+                    ok_match = True
+    # ... and every registered method is probed: the loop around the push walks the routes table itself
+    loops_ = cfg.natural_loops(bf)
+    inner_ = cfg.innermost_loop(bf, e.block, loops_)
+    rvs_ = range_vars_over(bf, R + "Router::routes")
+    walks = inner_ is not None and any(d_.get("var") in rvs_ and d_.block in inner_[1] for d_ in bf.events("decl"))
+    if not walks and inner_ is not None:
+        # an iterator loop over routes.begin() .. routes.end()
+        walks = any(("f:" + R + "Router::routes") in (bf.blocks[x_].term or {}).get("refs", []) for x_ in inner_[1] if (bf.blocks[x_].term or {}).get("k") in ("for", "while"))
+    ck.ob("C10-R3", "route/allow-list-covers-every-method", bool(walks), e.loc, bf,
+          "the probe walks Router::routes (every method that has a tree)" if walks else
+          "the loop that fills the Allow list does not walk Router::routes: a method whose routes match but which the loop does not visit "
+          "is missing from Allow (or the answer degrades to 404)")
     ck.ob("C10-R3", "route/allow-list-construction", ok_skip and ok_match, e.loc, bf,
           "pushed only for a method other than the request's (%s) whose tree returns a route (%s)" % (ok_skip, ok_match))
     # the terminal route handler is invoked with the bindings of the lookup
